@@ -106,12 +106,6 @@ theorem onTab_ok {w : World} {i : Nat} {f : Tab → Option Nat → Out} {p : Pro
     refine ⟨⟨h1.live, h1.dead⟩, hs.nocrash, fun hx _ => ?_⟩
     exact hx.put i (o := some (f t w.cd).tab) (fun t' e => by cases e; exact hs.ext (hx t hm))
 
-theorem onTab_get {w : World} {i : Nat} {t : Tab} (f : Tab → Option Nat → Out) (h : w.get i = some t) :
-    (onTab w i f).w.get i = some (f t w.cd).tab ∧ (onTab w i f).res = (f t w.cd).res := by
-  unfold onTab
-  rw [h]
-  exact ⟨World.get_put_same w i _, rfl⟩
-
 theorem read_res (c : Cfg) (t : Tab) (cd : Option Nat) (f : FileDesc) :
     (read c t cd f).res = .tt ∨ (read c t cd f).res = .threw := by
   unfold read
@@ -467,6 +461,13 @@ theorem run_inv_of (c : Cfg) : ∀ {w : World} (ops : List Op), w.Inv → SafeHi
     have hx := hk.ext h.allExt (he.imp id fun h' => h' op (List.mem_cons_self))
     exact ih (hk.inv.toInv hx) hs.2 (he.imp id fun h' o ho => h' o (List.mem_cons_of_mem _ ho))
 
+/-- destroying objects is always safe -/
+theorem safeHist_destroys (c : Cfg) : ∀ (w : World) (l : List Nat), SafeHist c w (l.map Op.destroy) := by
+  intro w l
+  induction l generalizing w with
+  | nil => trivial
+  | cons a l ih => exact ⟨trivial, ih _⟩
+
 /-- no step of a safe history has undefined behaviour -/
 theorem run_nocrash (c : Cfg) : ∀ {w : World} (ops pre : List Op) (op : Op) (post : List Op), w.InvX → SafeHist c w ops →
     ops = pre ++ op :: post → (step c (run c w pre) op).res ≠ .crash := by
@@ -506,5 +507,132 @@ theorem run_inv {w : World} (h : w.Inv) (ops : List Op) : (run Cfg.repaired w op
   induction ops generalizing w with
   | nil => exact h
   | cons op ops ih => exact ih (step_inv h op)
+
+
+/-! ### an executable (sufficient) test for `SafeCall`, to exhibit safe histories by `decide` -/
+
+def completesB (cd : Option Nat) (steps : List Step) : Bool := (runSteps cd steps []).2.2.2
+
+def readSafeB (c : Cfg) (cd : Option Nat) (f : FileDesc) : Bool :=
+  (c.readGuard || completesB cd (readSteps c f)) && (c.readAuxExact || f.aux.all fun e => e.stored == e.raw)
+
+def stackCompletesB (c : Cfg) (cd : Option Nat) (dims : List Dim) (k order : Nat) : Bool :=
+  (runSteps cd ((padBlocks dims).map .a) []).2.2.2 &&
+  (runSteps (runSteps cd ((padBlocks dims).map .a) []).2.2.1 ((padBlocks dims).map .a) []).2.2.2 &&
+  (runSteps (runSteps (runSteps cd ((padBlocks dims).map .a) []).2.2.1 ((padBlocks dims).map .a) []).2.2.1
+    ((stackMainBlocks c dims k order).map .a) []).2.2.2
+
+def onGet (w : World) (i : Nat) (p : Tab → Bool) : Bool :=
+  match w.get i with
+  | none => true
+  | some t => p t
+
+def safeCallB (c : Cfg) (w : World) : Op → Bool
+  | .construct _ | .getKey _ _ | .writeFits _ _ | .destroy _ | .moveConstruct _ _ | .moveAssign _ _ => true
+  | .constructFile _ f => readSafeB c w.cd f
+  | .read i f => onGet w i fun t => t.ndim != 0 || readSafeB c w.cd f
+  | .fit i a => onGet w i fun t =>
+      (c.fitRefuse || t.ndim == 0 || !a.valid || a.dims.isEmpty) && (c.fitGuard || completesB w.cd (fitSteps a))
+  | .writeKey i a => onGet w i fun t => c.writeKeyRefuse || t.ndim != 0 || a.kind != 0
+  | .removeKey i id => onGet w i fun t =>
+      c.removeKeyFirst || (findIdx t.aux id).isNone || completesB w.cd [.a (8 * (t.aux.length - 1))]
+  | .convolve i dim nk => onGet w i fun t =>
+      (c.convCheck || (decide (dim < t.ndim) && nk != 0)) && (!t.noExtents || decide (t.ndim ≤ dim) || nk == 0) &&
+      (c.convGuard || completesB w.cd (convSteps t dim nk))
+  | .permute i p => onGet w i fun t =>
+      (c.permuteEmpty || t.ndim != 0 || !p.isPerm (List.range t.ndim)) && (!t.noExtents || !p.isPerm (List.range t.ndim))
+  | .compare i j => onGet w i fun t => onGet w j fun s => c.eqEmpty || t.ndim != 0 || s.ndim != 0
+  | .stack _ srcs order => match srcs.mapM w.get with
+    | none => true
+    | some ts =>
+      (c.stackCheck || stackValid ts) &&
+      (!stackValid ts ||
+        ((c.stackGuard || stackCompletesB c w.cd (ts.headD Tab.empty).dims ts.length order) &&
+         (c.stackDelete || !stackCompletesB c w.cd (ts.headD Tab.empty).dims ts.length order)))
+
+theorem onGet_sound {w : World} {i : Nat} {p : Tab → Bool} (h : onGet w i p = true) {t : Tab} (ht : w.get i = some t) :
+    p t = true := by
+  simpa [onGet, ht] using h
+
+theorem readSafeB_sound {c : Cfg} {cd : Option Nat} {f : FileDesc} (h : readSafeB c cd f = true) : ReadSafe c cd f := by
+  simp only [readSafeB, completesB, Bool.and_eq_true, Bool.or_eq_true, List.all_eq_true, beq_iff_eq] at h
+  exact ⟨h.1, h.2⟩
+
+theorem stackCompletesB_iff {c : Cfg} {cd : Option Nat} {dims : List Dim} {k order : Nat} :
+    stackCompletesB c cd dims k order = true ↔ StackCompletes c cd dims k order := by
+  simp only [stackCompletesB, StackCompletes, Bool.and_eq_true, and_assoc]
+
+theorem safeCallB_sound {c : Cfg} {w : World} {op : Op} (h : safeCallB c w op = true) : SafeCall c w op := by
+  cases op <;> simp only [safeCallB] at h <;> simp only [SafeCall]
+  · intro _; exact readSafeB_sound h
+  · intro t ht
+    have := onGet_sound h ht
+    simp only [Bool.or_eq_true, bne_iff_ne, ne_eq] at this
+    exact this.imp id readSafeB_sound
+  · intro t ht
+    have := onGet_sound h ht
+    simp only [completesB, Bool.and_eq_true, Bool.or_eq_true, beq_iff_eq, Bool.not_eq_true', List.isEmpty_iff] at this
+    exact ⟨by rcases this.1 with ((h1 | h1) | h1) | h1 <;> simp [h1], this.2⟩
+  · intro t ht
+    have := onGet_sound h ht
+    simp only [Bool.or_eq_true, bne_iff_ne, ne_eq] at this
+    rcases this with (h1 | h1) | h1
+    · exact Or.inl h1
+    · exact Or.inr (Or.inl h1)
+    · exact Or.inr (Or.inr h1)
+  · intro t ht
+    have := onGet_sound h ht
+    simp only [completesB, Bool.or_eq_true, Option.isNone_iff_eq_none] at this
+    rcases this with (h1 | h1) | h1
+    · exact Or.inl h1
+    · exact Or.inr (Or.inl h1)
+    · exact Or.inr (Or.inr h1)
+  · intro t ht
+    have := onGet_sound h ht
+    simp only [completesB, Bool.and_eq_true, Bool.or_eq_true, decide_eq_true_eq, bne_iff_ne, ne_eq, Bool.not_eq_true', beq_iff_eq] at this
+    obtain ⟨⟨h1, h2⟩, h3⟩ := this
+    refine ⟨h1, ?_, h3⟩
+    rcases h2 with (h2 | h2) | h2
+    · exact Or.inl h2
+    · exact Or.inr (Or.inl h2)
+    · exact Or.inr (Or.inr h2)
+  · intro t ht
+    have := onGet_sound h ht
+    simp only [Bool.and_eq_true, Bool.or_eq_true, bne_iff_ne, ne_eq, Bool.not_eq_true'] at this
+    obtain ⟨h1, h2⟩ := this
+    refine ⟨?_, h2⟩
+    rcases h1 with (h1 | h1) | h1
+    · exact Or.inl h1
+    · exact Or.inr (Or.inl h1)
+    · exact Or.inr (Or.inr h1)
+  · intro t s ht hs
+    have := onGet_sound (onGet_sound h ht) hs
+    simp only [Bool.or_eq_true, bne_iff_ne, ne_eq] at this
+    rcases this with (h1 | h1) | h1
+    · exact Or.inl h1
+    · exact Or.inr (Or.inl h1)
+    · exact Or.inr (Or.inr h1)
+  · intro _ ts hm
+    rw [hm] at h
+    simp only [Bool.and_eq_true, Bool.or_eq_true, Bool.not_eq_true', stackCompletesB_iff] at h
+    obtain ⟨h1, h2⟩ := h
+    refine ⟨h1, fun hv => ?_⟩
+    rcases h2 with h2 | h2
+    · rw [hv] at h2; cases h2
+    · refine ⟨h2.1, h2.2.imp id fun h3 hc => ?_⟩
+      rw [← stackCompletesB_iff, h3] at hc; cases hc
+
+def safeHistB (c : Cfg) : World → List Op → Bool
+  | _, [] => true
+  | w, op :: ops => safeCallB c w op && safeHistB c (step c w op).w ops
+
+theorem safeHistB_sound {c : Cfg} : ∀ {w : World} {ops : List Op}, safeHistB c w ops = true → SafeHist c w ops := by
+  intro w ops
+  induction ops generalizing w with
+  | nil => intro _; trivial
+  | cons op ops ih =>
+    intro h
+    simp only [safeHistB, Bool.and_eq_true] at h
+    exact ⟨safeCallB_sound h.1, ih h.2⟩
 
 end PsV.Lifecycle
